@@ -421,6 +421,85 @@ theorem race_cover_schedule {cfg : Cfg} (hl : cfg.looped = false) (hpct : cfg.pc
   rw [partitionEntries_eq c _ _ h2] at h7
   exact ⟨h1, h3, h4, h5, h6, h7, h8, h9⟩
 
+/-! ### which parameter source a (worker, column, task) uses -/
+
+/-- what is assumed about one column: its allocations belong to the task (`c` clients), their client indices span
+    the range `r`, and the bulk generator of that range can be built -/
+def ColOK (o : Oracle) (cfg : Cfg) (corpora : List (Corpus α)) (c : Nat) (col : List Alloc.Entry × List Nat) (r : Nat × Nat) : Prop :=
+  (∀ en ∈ col.1, IsAllocOf c en) ∧ listMin (col.1.filterMap entryIdx) = some r.1 ∧ listMax (col.1.filterMap entryIdx) = some r.2 ∧
+    ∃ all c1, workerBulks o cfg corpora c r.1 r.2 ⟨0, 0, 0, 0⟩ = .ok (all, c1) ∧ all.length * 100 < 2^53
+
+/-- **race_cover_columns**: `Worker.drive` runs the columns of a worker's allocation one after the other, each with a
+    new parameter source per task (`runColumns`).  `cols` = all columns of all workers that contain allocations of a bulk
+    task with `c` clients (e.g. a capped `parallel` element spreads one task over several columns of the same worker), in
+    any order.  If their client-index ranges, in some order, cut `0..c-1` into consecutive ranges and every column runs to
+    the end, then — for every call order inside every column — the file lines of all bulks of all columns are a permutation
+    of all lines of all corpus files: every document exactly once. -/
+theorem race_cover_columns {o : Oracle} (hok : OracleOK o) {cfg : Cfg} (hl : cfg.looped = false) (hpct : cfg.pct = 100)
+    (hbulk : 0 < cfg.bulkSize) (hbatch : 0 < cfg.batchSize) {c : Nat} (hc : 1 ≤ c)
+    {corpora : List (Corpus α)} (hwf : ∀ d ∈ corpora.flatten, d.WF)
+    {cols : List (List Alloc.Entry × List Nat)} {outs : List (List (Nat × Bulk α) × List Nat)}
+    (hrun : runColumns o cfg corpora cols = .ok outs) (hstop : ∀ res ∈ outs, res.2 ≠ [])
+    {ranges' ranges : List (Nat × Nat)} (hcols : List.Forall₂ (ColOK o cfg corpora c) cols ranges')
+    (hperm : ranges'.Perm ranges) (hcut : Cut 0 c ranges) :
+    (outs.flatMap linesOfRun).Perm (corpora.flatten.flatMap (·.lines)) := by
+  have hr' : ∀ r ∈ ranges', r.1 ≤ r.2 ∧ r.2 < c := fun r hr => hcut.ranges_ok r (hperm.mem_iff.mp hr)
+  have hfresh := runColumns_fresh cols outs hrun
+  -- column by column: the lines handed out are the shares of the column's range
+  have key : ∀ (cols : List (List Alloc.Entry × List Nat)) (outs : List (List (Nat × Bulk α) × List Nat)) (rs : List (Nat × Nat)),
+      List.Forall₂ (fun col res => ∃ p0 p', partitionEntries col.1 (PState.init : PState α) = .ok p0 ∧
+        runCalls o cfg corpora col.2 p0 [] = .ok (res.1, res.2, p')) cols outs →
+      List.Forall₂ (ColOK o cfg corpora c) cols rs → (∀ res ∈ outs, res.2 ≠ []) → (∀ r ∈ rs, r.1 ≤ r.2 ∧ r.2 < c) →
+      (outs.flatMap linesOfRun).Perm (rs.flatMap (shareLines c corpora)) := by
+    intro cols
+    induction cols with
+    | nil =>
+      intro outs rs h1 h2 _ _
+      cases h1; cases h2; exact List.Perm.refl _
+    | cons col rest ih =>
+      intro outs rs h1 h2 hst hrs
+      cases h1 with
+      | cons hhead htail =>
+        cases h2 with
+        | cons chead ctail =>
+          rename_i res outs' r rs'
+          obtain ⟨p0, p', hp0, hrc⟩ := hhead
+          obtain ⟨hal, hmin, hmax, all, c1, hall, hsmall⟩ := chead
+          obtain ⟨hs, he⟩ := hrs r (List.mem_cons_self ..)
+          rw [partitionEntries_eq c _ _ hal] at hp0
+          obtain ⟨q0, hq0, hq⟩ := worker_cover hok hl hpct hbulk hbatch hc hs he hwf hmin hmax hall hsmall col.2
+          rw [hp0] at hq0
+          cases hq0
+          obtain ⟨⟨ws, hws, hlines⟩, _⟩ := hq res.1 res.2 p' hrc (hst res (List.mem_cons_self ..))
+          simp only [List.flatMap_cons]
+          refine List.Perm.append ?_ (ih outs' rs' htail ctail (fun x hx => hst x (List.mem_cons_of_mem _ hx))
+            (fun x hx => hrs x (List.mem_cons_of_mem _ hx)))
+          show (linesOfRun res).Perm (shareLines c corpora r)
+          unfold linesOfRun shareLines
+          rw [hlines]
+          exact List.Perm.flatten hws
+  refine (key cols outs ranges' hfresh hcols hstop hr').trans ((hperm.flatMap_right _).trans ?_)
+  exact race_cover_of_workers hc hwf hcut (shareLines c corpora) (fun r _ => List.Perm.refl _)
+
+/-- … and the per-column rule matters: one worker, clients 0,1 of a capped `parallel(clients = 2)[bulk(4 clients)]`,
+    8 documents, bulk size 1.  Column 1 holds the task's client indices 0,1, column 2 the indices 2,3.  With a new source
+    per column (the code) the worker sends the documents 0..7; if the source of column 1 were kept for column 2 (late
+    `partition()` on an exhausted source: `current_bulk = total_bulks`) column 2 would send nothing. -/
+theorem shared_source_loses_documents :
+    let o : Oracle := ⟨fun _ => 0, fun _ _ => 0, fun _ => 0, fun _ l => l⟩
+    let cfg : Cfg := ⟨1, 1, .none, none, false, none, 100, false⟩
+    let corpora : List (Corpus Nat) := [[⟨[0, 1, 2, 3, 4, 5, 6, 7], 8, false, false⟩]]
+    let t : Alloc.Sub := ⟨0, 4, false, false⟩
+    let cols : List (List Alloc.Entry × List Nat) :=
+      [([.task t 0 0 2, .task t 1 1 2], [0, 1, 0, 1, 0, 1]), ([.task t 2 2 2, .task t 3 3 2], [2, 3, 2, 3, 2, 3])]
+    (match runColumns o cfg corpora cols with
+      | .ok outs => outs.flatMap linesOfRun
+      | .error _ => []) = [0, 1, 2, 3, 4, 5, 6, 7] ∧
+    (match runColumnsShared o cfg corpora cols PState.init with
+      | .ok outs => outs.flatMap linesOfRun
+      | .error _ => []) = [0, 1, 2, 3] := by
+  decide +kernel
+
 /-- `number_of_bulks` counts the bulks of the *group* (one contiguous slice per file), not the sum of
     per-client ceilings: 40 documents, 8 clients, bulk size 4, clients 0..3 on one worker → 5 bulks, while the
     clients one by one would need 2 + 2 + 2 + 2 = 8. -/
